@@ -22,10 +22,13 @@ func genSLIter(seed uint64, tier string) *Plan {
 	p.Knobs["mm"] = r.Intn(2)
 	p.Knobs["protect"] = 0
 	nstable := r.Range(2, 6)
-	p.Knobs["nstable"] = nstable // stable keys 10,20,...; churn keys 5,15,25,... (between and around them)
-	nchurn := nstable + 1
+	p.Knobs["nstable"] = nstable // stable keys 10,20,...; two churn keys in every gap: 3,6,13,16,23,26,...
+	nchurn := 2 * (nstable + 1)
 	nmut := r.Range(1, 3)
 	p.Knobs["prefill"] = r.Intn(1 << uint(nchurn))
+	if r.Bool(0.3) {
+		p.Knobs["prefill"] = 1<<uint(nchurn) - 1 // everything present: deletes dominate at first
+	}
 	for m := 0; m < nmut; m++ {
 		tp := TaskPlan{Name: fmt.Sprintf("m%d", m), Phase: 0}
 		n := r.Range(2, 12)
@@ -134,9 +137,10 @@ func runSLIter(env *Env) {
 		sl.Insert2(newItem(10*i), cmpIntRaw, nil, setup, levelRand(i%3), &sl.Stats)
 		stable[10*i] = true
 	}
-	churnKey := func(c int) int { return 10*c + 5 }
+	churnKey := func(c int) int { return 10*(c/2) + 3 + 3*(c%2) }
+	churnIndex := func(k int) int { return 2*(k/10) + ((k%10)-3)/3 }
 	var evs []churnEv
-	for c := 0; c <= nstable; c++ {
+	for c := 0; c < 2*(nstable+1); c++ {
 		if plan.Knob("prefill", 0)&(1<<uint(c)) != 0 {
 			sl.Insert2(newItem(churnKey(c)), cmpIntRaw, nil, setup, levelRand(c%2), &sl.Stats)
 			evs = append(evs, churnEv{key: churnKey(c), ins: true, ok: true, call: 0, ret: 0})
@@ -192,7 +196,7 @@ func runSLIter(env *Env) {
 						if op.Arg(1) == 1 {
 							k = prevKey[name]
 						}
-						if k == 0 || stable[k] || ((k-5)/10)%nmut != mi%nmut {
+						if k == 0 || stable[k] || churnIndex(k)%nmut != mi%nmut {
 							continue
 						}
 					}
